@@ -1,7 +1,7 @@
 (** C09 - Background work is durable and recurring maintenance never stops.
     Only statements: each theorem is closed by [exact] of a lemma proved elsewhere. *)
 From Coq Require Import String.
-From KV Require Import base.Tac queue.Queue queue.QueueProofs queue.QueueSpec gen.GenQueue.
+From KV Require Import base.Tac queue.Queue queue.QueueProofs queue.QueueSpec queue.TaskName gen.GenQueue.
 Open Scope N_scope.
 
 (** Due tasks are handed out earliest first. *)
@@ -91,6 +91,18 @@ Theorem C09_recurring_never_done : forall t,
   In t (recurring ++ ["RenewTestbedTa"%string; "RefreshAnnouncementsInfo"%string])%list -> lookup_process t = [("FollowUp"%string, t)].
 Proof. exact recurring_never_done. Qed.
 
+(** Task names: two different parent-sync tasks have different queue names provided the CA handles contain
+    no '_'; without that restriction the statement is false (known finding F09b). *)
+Theorem C09_task_name_injective_without_underscore : forall ca1 p1 ca2 p2,
+  no_underscore ca1 -> no_underscore ca2 ->
+  sync_parent_name ca1 p1 = sync_parent_name ca2 p2 -> ca1 = ca2 /\ p1 = p2.
+Proof. exact name_injective_without_underscore. Qed.
+
+Theorem C09_task_name_injective_refuted : ~ name_injective_full.
+Proof. exact name_injective_refuted. Qed.
+
+Print Assumptions C09_task_name_injective_without_underscore.
+Print Assumptions C09_task_name_injective_refuted.
 Print Assumptions C09_claim_earliest.
 Print Assumptions C09_claim_none_iff.
 Print Assumptions C09_claim_some_when_due.
